@@ -418,7 +418,8 @@ wrapint wrapint::sext(bitwidth_t bits_to_add) const {
         (new_width < 64 ? ((uint64_t)1 << (uint64_t)new_width) - 1
                         : UINT64_MAX);
     // 1110..0
-    uint64_t only_upper_bits_ones = all_ones << (uint64_t)_width;
+    uint64_t only_upper_bits_ones =
+        (_width < 64 ? all_ones << (uint64_t)_width : 0);
     return wrapint(_n | only_upper_bits_ones, new_width);
   } else {
     // -- fill upper bits with zeros
